@@ -5,16 +5,24 @@
 //
 // Case fields after the id:
 //   backend(st|mem|ss|sm) extractor(header|form|query|param|cookie|custom) single(0/1) idle(secs)
-//   trusted(hexlist) ops(`;`-separated) obs(`;`-separated, one per op, or `panic`)
+//   trusted(hexlist)
+//   front(`eh=<d|c|n>;next=<0|1>;ck=<secure><httponly><sessiononly>,<samesite hex>,<domain hex>,<path hex>`:
+//     ErrorHandler default / custom (one status per error) / swallowing (returns nil); Next configured
+//     (skips requests carrying `X-Skip: 1`); the cookie fields of the configuration)
+//   ops(`;`-separated)
+//   urlFacts(`hex(arg)=err|scheme|host|path|rawquery|fragment` joined by `;`: what the real net/url.Parse
+//     answers on every string the constructor can hand to it; recomputed on replay)
+//   obs(`;`-separated, one per op, or `panic`)
 // Ops (`:`-separated sub-fields, byte strings hex, `-` = empty):
 //   a:<secs>
 //   r:<METHOD>:<csrf cookie>:<session cookie>:<hdr tok>:<query tok>:<form tok>:<param tok>:<custom tok>:
-//     <origin>:<ok>:<scheme>:<host>:<referer>:<ok>:<scheme>:<host>:<Host header>:<https 0/1>:<del 0/1>:<faults g/s/d or ->
+//     <origin>:<ok>:<scheme>:<host>:<referer>:<ok>:<scheme>:<host>:<Host header>:<https 0/1>:<del 0/1>:<faults g/s/d or ->:<skip 0/1>
 //   (ok/scheme/host = net/url.Parse of the lower-cased header: recomputed by the harness on replay)
 // Observation per `r` op: pass,status,ck(none|exp|hex),sc(none|hex),gen(+-joined hex|-),sgen,
 //   fired(faults that actually hit a storage call: subset of gsd, or -),
 //   early(1 = a fault hit before the protected handler was entered, or it never was),
-//   live(+-joined k@deadline|?|-)
+//   live(+-joined k@deadline|?|-),
+//   attrs(- = no csrf cookie set | <domain hex>~<path hex>~<secure><httponly>~<lax|strict|none|disabled|default>~<expires secs|none>)
 package main
 
 import (
@@ -127,6 +135,75 @@ type cfgIn struct {
 	single       bool
 	idle         int
 	trusted      []string
+	// front
+	eh                                string // "d" default | "c" custom (a status per error) | "n" swallows the error (returns nil)
+	next                              bool   // Config.Next = "the request carries X-Skip: 1"
+	ckSecure, ckHTTPOnly, ckSessOnly  bool
+	ckSameSite, ckDomain, ckPath      string
+}
+
+func (c cfgIn) front() string {
+	eh := c.eh
+	if eh == "" {
+		eh = "d"
+	}
+	return "eh=" + eh + ";next=" + gen.B(c.next) + ";ck=" + gen.B(c.ckSecure) + gen.B(c.ckHTTPOnly) + gen.B(c.ckSessOnly) + "," +
+		gen.Hex(c.ckSameSite) + "," + gen.Hex(c.ckDomain) + "," + gen.Hex(c.ckPath)
+}
+
+// parseFront tolerates mangled input: ok=false for anything ill-formed.
+func parseFront(s string, c *cfgIn) (ok bool) {
+	defer func() {
+		if recover() != nil {
+			ok = false
+		}
+	}()
+	parts := strings.Split(s, ";")
+	if len(parts) != 3 || !strings.HasPrefix(parts[0], "eh=") || !strings.HasPrefix(parts[1], "next=") || !strings.HasPrefix(parts[2], "ck=") {
+		return false
+	}
+	c.eh = parts[0][3:]
+	if c.eh != "d" && c.eh != "c" && c.eh != "n" {
+		return false
+	}
+	c.next = parts[1][5:] == "1"
+	f := strings.Split(parts[2][3:], ",")
+	if len(f) != 4 || len(f[0]) != 3 {
+		return false
+	}
+	c.ckSecure, c.ckHTTPOnly, c.ckSessOnly = f[0][0] == '1', f[0][1] == '1', f[0][2] == '1'
+	c.ckSameSite, c.ckDomain, c.ckPath = gen.UnHex(f[1]), gen.UnHex(f[2]), gen.UnHex(f[3])
+	return true
+}
+
+var errCustom = errors.New("custom extractor error")
+
+// errCode: the status the custom ErrorHandler answers an error with
+func errCode(err error) int {
+	switch {
+	case errors.Is(err, csrf.ErrOriginInvalid):
+		return 461
+	case errors.Is(err, csrf.ErrOriginNoMatch):
+		return 462
+	case errors.Is(err, csrf.ErrRefererNotFound):
+		return 463
+	case errors.Is(err, csrf.ErrRefererInvalid):
+		return 464
+	case errors.Is(err, csrf.ErrRefererNoMatch):
+		return 465
+	case errors.Is(err, csrf.ErrMissingHeader), errors.Is(err, csrf.ErrMissingQuery), errors.Is(err, csrf.ErrMissingParam),
+		errors.Is(err, csrf.ErrMissingForm), errors.Is(err, csrf.ErrMissingCookie):
+		return 466
+	case errors.Is(err, errCustom):
+		return 467
+	case errors.Is(err, csrf.ErrTokenNotFound):
+		return 468
+	case errors.Is(err, csrf.ErrTokenInvalid):
+		return 469
+	case errors.Is(err, errFault):
+		return 470
+	}
+	return 499
 }
 
 type op struct {
@@ -136,6 +213,7 @@ type op struct {
 	method, ck, sc, hdr, qry, form, param, custom, origin, referer, host string
 	https, del                                                        bool
 	faults                                                            string
+	skip                                                              bool // the request carries X-Skip: 1
 }
 
 func urlInfo(h string) (string, string, string) {
@@ -158,7 +236,7 @@ func (o op) String() string {
 	}
 	return strings.Join([]string{"r", o.method, gen.Hex(o.ck), gen.Hex(o.sc), gen.Hex(o.hdr), gen.Hex(o.qry),
 		gen.Hex(o.form), gen.Hex(o.param), gen.Hex(o.custom), gen.Hex(o.origin), ook, osch, ohost,
-		gen.Hex(o.referer), rok, rsch, rhost, gen.Hex(o.host), gen.B(o.https), gen.B(o.del), f}, ":")
+		gen.Hex(o.referer), rok, rsch, rhost, gen.Hex(o.host), gen.B(o.https), gen.B(o.del), f, gen.B(o.skip)}, ":")
 }
 
 func unhex(s string) (string, bool) {
@@ -184,11 +262,14 @@ func parseOp(s string) (o op, ok bool) {
 			return o, false
 		}
 		return op{kind: "a", secs: n}, true
-	case len(f) == 21 && f[0] == "r":
+	case (len(f) == 21 || len(f) == 22) && f[0] == "r":
 		o = op{kind: "r", method: f[1], ck: gen.UnHex(f[2]), sc: gen.UnHex(f[3]), hdr: gen.UnHex(f[4]),
 			qry: gen.UnHex(f[5]), form: gen.UnHex(f[6]), param: gen.UnHex(f[7]), custom: gen.UnHex(f[8]),
 			origin: gen.UnHex(f[9]), referer: gen.UnHex(f[13]), host: gen.UnHex(f[17]), https: f[18] == "1",
 			del: f[19] == "1", faults: strings.Trim(f[20], "-")}
+		if len(f) == 22 {
+			o.skip = f[21] == "1"
+		}
 		return o, true
 	}
 	return o, false
@@ -245,6 +326,17 @@ func newWorld(c cfgIn) (w *world, panicked bool) {
 			w.gens = append(w.gens, t)
 			return t
 		},
+		CookieSecure: c.ckSecure, CookieHTTPOnly: c.ckHTTPOnly, CookieSessionOnly: c.ckSessOnly,
+		CookieSameSite: c.ckSameSite, CookieDomain: c.ckDomain, CookiePath: c.ckPath,
+	}
+	if c.next {
+		conf.Next = func(c fiber.Ctx) bool { return c.Get("X-Skip") == "1" }
+	}
+	switch c.eh {
+	case "c":
+		conf.ErrorHandler = func(_ fiber.Ctx, err error) error { return fiber.NewError(errCode(err)) }
+	case "n":
+		conf.ErrorHandler = func(_ fiber.Ctx, _ error) error { return nil }
 	}
 	switch c.ext {
 	case "header":
@@ -261,7 +353,7 @@ func newWorld(c cfgIn) (w *world, panicked bool) {
 		conf.Extractor = func(c fiber.Ctx) (string, error) {
 			v := c.Get(customHdr)
 			if v == "err" {
-				return "", errors.New("custom extractor error")
+				return "", errCustom
 			}
 			return v, nil
 		}
@@ -423,6 +515,9 @@ func (w *world) do(o op) (obs string) {
 	if o.referer != "" {
 		req.Header.Set("Referer", o.referer)
 	}
+	if o.skip {
+		req.Header.Set("X-Skip", "1")
+	}
 	var fctx *fasthttp.RequestCtx
 	if o.https {
 		if w.secure == nil {
@@ -452,7 +547,7 @@ func (w *world) do(o op) (obs string) {
 	if w.st != nil {
 		w.st.failGet, w.st.failSet, w.st.failDel = false, false, false
 	}
-	ck, sc := "none", "none"
+	ck, sc, attrs := "none", "none", "-"
 	fctx.Response.Header.VisitAllCookie(func(k, v []byte) {
 		var c fasthttp.Cookie
 		if err := c.ParseBytes(v); err != nil {
@@ -465,6 +560,15 @@ func (w *world) do(o op) (obs string) {
 			} else {
 				ck = gen.Hex(string(c.Value()))
 			}
+			ss := map[fasthttp.CookieSameSite]string{fasthttp.CookieSameSiteDisabled: "disabled", fasthttp.CookieSameSiteDefaultMode: "default",
+				fasthttp.CookieSameSiteLaxMode: "lax", fasthttp.CookieSameSiteStrictMode: "strict", fasthttp.CookieSameSiteNoneMode: "none"}[c.SameSite()]
+			exp := "none"
+			if c.MaxAge() != 0 {
+				exp = "maxage" + strconv.Itoa(c.MaxAge())
+			} else if !c.Expire().Equal(fasthttp.CookieExpireUnlimited) {
+				exp = strconv.FormatInt(c.Expire().Unix()-w.start.Truncate(time.Second).Unix(), 10)
+			}
+			attrs = gen.Hex(string(c.Domain())) + "~" + gen.Hex(string(c.Path())) + "~" + gen.B(c.Secure()) + gen.B(c.HTTPOnly()) + "~" + ss + "~" + exp
 		case sessCookie:
 			sc = gen.Hex(string(c.Value()))
 		}
@@ -485,7 +589,7 @@ func (w *world) do(o op) (obs string) {
 		fired = "-"
 	}
 	return strings.Join([]string{gen.B(w.ran), strconv.Itoa(fctx.Response.StatusCode()), ck, sc,
-		plusList(w.gens), plusList(w.sgens), fired, gen.B(early), w.liveObs()}, ",")
+		plusList(w.gens), plusList(w.sgens), fired, gen.B(early), w.liveObs(), attrs}, ",")
 }
 
 // runCase executes a history on a fresh world and returns the obs field.
@@ -509,6 +613,36 @@ func runCase(c cfgIn, ops []op) string {
 	return strings.Join(out, ";")
 }
 
+// urlFacts: the real net/url.Parse on every string the constructor can pass to normalizeOrigin (each
+// entry trimmed; a "://*." entry with the star cut out). The Origin/Referer answers travel in the ops.
+func urlFacts(c cfgIn) string {
+	var probes []string
+	seen := map[string]bool{}
+	for _, e := range c.trusted {
+		o := strings.Trim(e, " ")
+		if i := strings.Index(o, "://*."); i != -1 {
+			o = o[:i+3] + o[i+4:]
+		}
+		if !seen[o] {
+			seen[o] = true
+			probes = append(probes, o)
+		}
+	}
+	out := make([]string, 0, len(probes))
+	for _, p := range probes {
+		u, err := url.Parse(p)
+		res := "err"
+		if err == nil {
+			res = fmt.Sprintf("%x|%x|%x|%x|%x", u.Scheme, u.Host, u.Path, u.RawQuery, u.Fragment)
+		}
+		out = append(out, fmt.Sprintf("%x", p)+"="+res)
+	}
+	if len(out) == 0 {
+		return "-"
+	}
+	return strings.Join(out, ";")
+}
+
 func emit(wr *gen.Writer, id string, c cfgIn, ops []op, obs string) {
 	s := make([]string, len(ops))
 	for i, o := range ops {
@@ -518,7 +652,7 @@ func emit(wr *gen.Writer, id string, c cfgIn, ops []op, obs string) {
 	if len(s) > 0 {
 		opsField = strings.Join(s, ";")
 	}
-	wr.Case(id, c.backend, c.ext, gen.B(c.single), gen.I(c.idle), gen.HexList(c.trusted), opsField, obs)
+	wr.Case(id, c.backend, c.ext, gen.B(c.single), gen.I(c.idle), gen.HexList(c.trusted), c.front(), opsField, urlFacts(c), obs)
 }
 
 func replay(wr *gen.Writer, file string) {
@@ -539,9 +673,17 @@ func replay(wr *gen.Writer, file string) {
 				return
 			}
 			c := cfgIn{backend: f[1], ext: f[2], single: f[3] == "1", idle: idle, trusted: gen.UnHexList(f[5])}
+			opsF := f[6]
+			if strings.HasPrefix(f[6], "eh=") { // current format: the front field sits before the ops
+				if len(f) < 8 || !parseFront(f[6], &c) {
+					wr.Count("replay-skipped")
+					return
+				}
+				opsF = f[7]
+			}
 			var ops []op
-			if f[6] != "-" {
-				for _, s := range strings.Split(f[6], ";") {
+			if opsF != "-" {
+				for _, s := range strings.Split(opsF, ";") {
 					o, ok := parseOp(s)
 					if !ok {
 						wr.Count("replay-skipped")
